@@ -66,6 +66,8 @@ def width_of(t):
     if k == "bit":
         ws = [width_of(x) for x in t[2]]
         return min(ws) if t[1] == "and" else max(ws)
+    if k == "word":
+        return 8 * (max(j for j, _ in t[1]) + 1)
     if k == "elem":
         return t[1]
     return 64
@@ -170,6 +172,8 @@ def _bitop(name, items, W):
             if not ded or ded[-1] != r:
                 ded.append(r)
         rest = ded
+    if name in ("xor", "or"):
+        rest = _merge_bytes(rest)
     const &= M
     ident = 0 if name in ("xor", "or") else M
     if name == "and" and const == 0:
@@ -181,6 +185,36 @@ def _bitop(name, items, W):
     if len(rest) == 1:
         return rest[0]
     return ("bit", name, tuple(rest))
+
+
+def _byte_placement(t):
+    """(j, leaf) if t is an 8-bit leaf placed at byte j (leaf, or leaf * 2**(8j)); ('word', ...) atoms expand."""
+    if t[0] == "leaf" and t[2] == 8:
+        return [(0, t)]
+    if t[0] == "poly" and len(t[1]) == 1:
+        (m, c), = t[1]
+        if len(m) == 1 and m[0][0] == "leaf" and m[0][2] == 8 and c > 0 and c & (c - 1) == 0 and (c.bit_length() - 1) % 8 == 0:
+            return [((c.bit_length() - 1) // 8, m[0])]
+    if t[0] == "word":
+        return list(t[1])
+    return None
+
+
+def _merge_bytes(items):
+    """xor/or of 8-bit leaves placed at distinct byte positions is a little-endian word: one canonical atom."""
+    placed, other = [], []
+    for i in items:
+        bp = _byte_placement(i)
+        if bp is None:
+            other.append(i)
+        else:
+            placed.extend(bp)
+    js = [j for j, _ in placed]
+    if len(placed) >= 2 and len(set(js)) == len(js):
+        other.append(("word", tuple(sorted(placed))))
+        other.sort(key=repr)
+        return other
+    return items
 
 
 def poly(t, W):
@@ -260,6 +294,8 @@ def show(t, depth=0):
         return "%s(%s, %s)" % (t[1], show(t[2]), show(t[3]))
     if k == "sx":
         return "int%d(%s)" % (t[1], show(t[2]))
+    if k == "word":
+        return "le_word(%s)" % ", ".join("%s@%d" % (show(l), j) for j, l in t[1])
     return repr(t)
 
 
@@ -544,6 +580,8 @@ class HInterp:
                 dt = cast_target(e.args[1])
                 if isinstance(src, BytesV) and src.kind == "head" and dt is not None and dt.kind == "uint" and dt.bits == 8 * self.B:
                     return BlocksV(dt.bits)
+                if isinstance(src, BytesV) and src.kind == "tail" and dt is not None and dt.kind in ("uint", "int") and dt.bits in (8, 16, 32, 64):
+                    return ("tailwords", dt.kind, dt.bits)
                 raise HUndecided("frombuffer `%s`" % unparse(e))
             callee = self.model.lookup_func(self.func.module, d) if d and "." not in d else None
             if callee is not None and callee.is_kernel:
@@ -568,6 +606,13 @@ class HInterp:
                 if base.kind == "tail" and i[0] == "c":
                     return leaf("tail[%d]" % i[1], 8)
                 raise HUndecided("byte access `%s`" % unparse(e))
+            if isinstance(base, tuple) and base and base[0] == "tailwords":
+                i = nf(self.ev(e.slice, p))
+                if i[0] == "c":
+                    nb = base[2] // 8
+                    wd = ("word", tuple((j, leaf("tail[%d]" % (i[1] * nb + j), 8)) for j in range(nb))) if nb > 1 else leaf("tail[%d]" % i[1], 8)
+                    return wd if base[1] == "uint" else ("sx", base[2], wd)
+                raise HUndecided("tail word access `%s`" % unparse(e))
             if isinstance(base, BlocksV):
                 i = self.ev(e.slice, p)
                 if i == ("idx",):
@@ -576,7 +621,8 @@ class HInterp:
         raise HUndecided("expression `%s`" % unparse(e, 50))
 
     def binop(self, o, a, b):
-        if isinstance(a, (BytesV, BlocksV)) or isinstance(b, (BytesV, BlocksV)) or a is None or b is None:
+        if isinstance(a, (BytesV, BlocksV)) or isinstance(b, (BytesV, BlocksV)) or a is None or b is None \
+                or (isinstance(a, tuple) and a and a[0] == "tailwords") or (isinstance(b, tuple) and b and b[0] == "tailwords"):
             raise HUndecided("operator on a non-scalar")
         n = type(o).__name__
         if n in RING:
@@ -638,7 +684,9 @@ def nf(t, W=64):     # noqa: F811
     if k in ("acc", "idx", "in", "undef"):
         return t
     if k == "sx":
-        return ("sx", t[1], _nf_core(t[2], t[1]) if t[2][0] not in ("acc", "idx", "in") else t[2])
+        return ("sx", t[1], nf(t[2], t[1]) if t[2][0] not in ("acc", "idx", "in") else t[2])
+    if k == "word":
+        return t
     if k == "len":
         return ("leaf", "len", 63)
     return _nf_core(t, W)
